@@ -12,7 +12,7 @@ import vlib
 from vlib import hx
 
 ASAN_ENV = dict(os.environ, ASAN_OPTIONS="detect_leaks=0:abort_on_error=0:allocator_may_return_null=1", UBSAN_OPTIONS="print_stacktrace=1")
-TMP = os.path.join(vlib.WORK, "tmp", "c19")
+TMP = os.path.join(vlib.WORK, "tmp", "c19-%d" % os.getpid())      # private to this run; removed at the end unless something was found
 
 # ------------------------------------------------------------------ batch execution with crash / hang attribution
 
@@ -579,7 +579,6 @@ def bfile_part(chk, drv, drv_asan, model):
                     dis.append(dict(case=key, input_head=data[:400].decode("latin1"), input_hex=data.hex() if len(data) < 3000 else None, tree=tans[:600], implementation=lans, model=m))
             nontrivial = ("bf", impl[:80])
         chk.count(nontrivial if not key.startswith(("noise", "truncate", "edit")) or nontrivial else None)
-        w = None
     # well-formedness statistics on a sample (PyYAML is slow on big inputs)
     for i in rng.sample(range(len(cases)), min(len(cases), chk.n(400, 4000))):
         if len(cases[i][1]) < 5000:
@@ -615,7 +614,7 @@ def bfile_part(chk, drv, drv_asan, model):
                            reproduce="python3 -c \"import sys; sys.stdout.buffer.write(b'client:\\n  name: basic\\ntools: {a: ' + b'['*1000000 + b']'*1000000 + b'}\\n')\" > F; llbuild buildsystem parse F   (regular build: SIGSEGV at depth 1000000; ASan build at %d)" % deep_n),
                       found_input=True, broken="c19 oracle on implementation (load)")
     # command-line layer on the corpus and a sample (crash of `llbuild buildsystem parse` itself, incl. its diagnostics printer)
-    llb = vlib.llbuild_bin()
+    llb = cli_binary()
     pick = [i for i, c in enumerate(cases) if c[0].startswith(("corpus", "raw"))] + rng.sample(range(len(cases)), min(len(cases), chk.n(120, 2500)))
     ncli = 0
     for i in pick:
@@ -770,7 +769,7 @@ def ninja_part(chk, drv_asan):
     k = next(i for i, c in enumerate(cases) if c[0] == "self-include")
     chk.sample(dict(kind="ninja-manifest", case="self-include", text="include build.ninja", answer=res[k][1] if res[k][0] == "ok" else res[k][1].get("kind")))
     # command line on the corpus and a sample
-    llb = vlib.llbuild_bin()
+    llb = cli_binary()
     pick = [i for i, c in enumerate(cases) if c[0].startswith(("self", "mutual", "include", "tail"))] + rng.sample(range(len(cases)), min(len(cases), chk.n(100, 2500)))
     for i in pick:
         if res[i][0] != "ok":
@@ -804,13 +803,39 @@ def other_parts(chk):
 
 # ------------------------------------------------------------------ entry points
 
+def private_copy(path, lock, name):
+    """The libraries of /repo (and with them the drivers and llbuild) are relinked whenever another check runs after a
+    commit; run from a private copy taken under the builder's lock."""
+    os.makedirs(os.path.join(TMP, "bin"), exist_ok=True)
+    dst = os.path.join(TMP, "bin", name)
+    for attempt in range(6):
+        try:
+            with vlib.Lock(lock):
+                tmp = dst + ".%d" % os.getpid()
+                shutil.copy2(path, tmp)
+                os.replace(tmp, dst)
+            return dst
+        except OSError:
+            time.sleep(2)
+    return path
+
 def setup():
-    drv = vlib.build_drivers(["bfile_driver"])["bfile_driver"]
-    drv_asan = vlib.build_drivers(["bfile_driver"], "asan")["bfile_driver"]
+    drv = private_copy(vlib.build_drivers(["bfile_driver"])["bfile_driver"], "drv-hooks", "bfile_driver")
+    drv_asan = private_copy(vlib.build_drivers(["bfile_driver"], "asan")["bfile_driver"], "drv-asan", "bfile_driver_asan")
     model = vlib.model_bin("bfile")
     return drv, drv_asan, model
 
+def cli_binary():
+    return private_copy(vlib.llbuild_bin(), "build-hooks", "llbuild")
+
 def run(chk):
+    try:
+        return run_parts(chk)
+    finally:
+        if not chk.violations:
+            shutil.rmtree(TMP, ignore_errors=True)
+
+def run_parts(chk):
     drv, drv_asan, model = setup()
     chk.proof_gate()
     bfile_part(chk, drv, drv_asan, model)
